@@ -52,6 +52,7 @@ type c25flush struct {
 // c25life runs one process lifetime on disk d starting from logical state `logical`, recording flushes.
 // Returns the script. The disk records a snapshot after every durable operation.
 type c25world struct {
+	big     bool
 	r       *rand.Rand
 	kind    int
 	gen     map[string]int
@@ -61,6 +62,7 @@ type c25world struct {
 
 func (w *c25world) life(d *memdisk.Disk, p c25prod, logical c25state, nOps int, names []string) (script []string, err error) {
 	open := map[string]kvdb.Store{}
+	kept := map[string]kvdb.Batch{} // batch objects kept and reused (Reset after Write), as long-running code does
 	r := w.r
 	for op := 0; op < nOps; op++ {
 		base := names[r.Intn(len(names))]
@@ -84,6 +86,9 @@ func (w *c25world) life(d *memdisk.Disk, p c25prod, logical c25state, nOps int, 
 				return script, err
 			}
 			k, v := []byte{byte('a' + r.Intn(3))}, []byte{byte('A' + op%26), byte(*w.nFlush)}
+			if w.big && r.Intn(2) == 0 {
+				v = append(v, make([]byte, 45000)...)
+			}
 			if r.Intn(4) == 0 {
 				if err := open[n].Delete(k); err != nil {
 					return script, err
@@ -101,9 +106,16 @@ func (w *c25world) life(d *memdisk.Disk, p c25prod, logical c25state, nOps int, 
 			if err := ensure(); err != nil {
 				return script, err
 			}
-			b := open[n].NewBatch()
+			b := kept[n]
+			if b == nil || r.Intn(3) == 0 {
+				b = open[n].NewBatch()
+				kept[n] = b
+			}
 			for j := 0; j < 2+r.Intn(2); j++ {
 				k, v := []byte{byte('a' + r.Intn(4))}, []byte{byte('a' + op%26), byte(j)}
+				if w.big {
+					v = append(v, make([]byte, 45000)...) // several of these exceed the ideal batch size: a flush is split into batches
+				}
 				if r.Intn(4) == 0 {
 					b.Delete(k)
 					delete(logical[n], string(k))
@@ -115,12 +127,14 @@ func (w *c25world) life(d *memdisk.Disk, p c25prod, logical c25state, nOps int, 
 			if err := b.Write(); err != nil {
 				return script, err
 			}
+			b.Reset()
 			script = append(script, "batch "+n)
 		case c < 14: // close + drop; a re-created database gets a fresh name
 			if open[n] != nil {
 				_ = open[n].Close()
 				open[n].Drop()
 				delete(open, n)
+				delete(kept, n)
 				delete(logical, n)
 				w.gen[base]++
 				script = append(script, "drop "+n)
@@ -212,7 +226,10 @@ func runC25(c *ev.Ctx) {
 		names := []string{"A", "B", "C", "D"}[:2+r.Intn(3)]
 		nFlush := 0
 		flushes := []c25flush{{id: nil, state: c25state{}}}
-		w := &c25world{r: r, kind: kind, gen: map[string]int{}, nFlush: &nFlush, flushes: &flushes}
+		w := &c25world{r: r, kind: kind, gen: map[string]int{}, nFlush: &nFlush, flushes: &flushes, big: h%10 == 9}
+		if w.big {
+			c.Count("histories_with_values_beyond_the_ideal_batch_size", 1)
+		}
 		logical := c25state{}
 		var script []string
 		var lerr error
@@ -294,7 +311,7 @@ func runC25(c *ev.Ctx) {
 			}
 			// names in use are those present at the recovered flush; the logical state is that flush's
 			logical2 := flushes[fi].state.copy()
-			w2 := &c25world{r: r, kind: kind, gen: gen2, nFlush: &nf2, flushes: &fl2}
+			w2 := &c25world{r: r, kind: kind, gen: gen2, nFlush: &nf2, flushes: &fl2, big: w.big}
 			var script2 []string
 			var err2 error
 			pn, _ := ev.Try(func() { script2, err2 = w2.life(d2, p2, logical2, 10, names) })
